@@ -4,8 +4,23 @@
 FUNCTIONS = [
     "decode (filemap_xattr.c)", "parse_file_name", "parse_xattr",
 ]
-TRUSTED = []
-ASSUMPTIONS = []
+TRUSTED = [
+    "w12: hex_decode / base64_decode contracts as stubs in w12_xattr_decode (discharged by this property's harnesses hex_decode, base64): "
+    "they read in[0..in_sz) and write out[0..capacity) only, result length <= capacity and <= 3/4 in_len + 2",
+    "w12: canonicalize_name contract in w12_xattr_file_name (C18: 0 / -1, in place, never grows); "
+    "sqfs_xattr_create in w12_xattr_kv: NULL or a fresh entry (libsquashfs copies key and value)",
+    "w12: decode() is replaced by its contract in w12_xattr_kv (NULL, or a fresh buffer and a length <= the text length; "
+    "proved by w12_xattr_decode, its meaning by C01 w12_xattr_value)",
+]
+ASSUMPTIONS = [
+    "w12: xattr_open_map_file's guard-less for(;;) line loop, xattr_close_map_file and the line dispatch (\"# file: \" prefix / first '=' / "
+    "comment) have no harness; istream_get_line is this property's get_line harness. The use-after-free that the loop runs into "
+    "after a refused `# file:` line is caught one level lower as C07.xattr_file.name_fail_unchanged",
+    "w12: w12_xattr_decode runs without --conversion-check: `*d++ = *v++` (char -> sqfs_u8 for bytes >= 0x80) is the intended copy; "
+    "observation: an octal escape \\400..\\777 is silently narrowed to its low 8 bits",
+    "w12: bounded: w12_xattr_file_name path text <= 3 (quick) / 4 bytes, w12_xattr_kv key <= 2 and value text <= 3 bytes "
+    "(both functions are loop-free; the bound only limits the strdup/strlen library loops)",
+]
 
 CT = {"__NO_CTYPE": None}
 GSRC = ["bin/gensquashfs/src"]
